@@ -749,3 +749,7 @@ mutant("C05-M29", "C05", "R05k", "junctions with several upstream compartments s
 mutant("C05-M30", "C05", "R05k", "attachment test inverted for timed parameters", FW, "ProjectFramework._assign_junction_duration_groups", 'if par == ">" or self.pars.at[par, "timed"] != "y":', 'if par == ">" or self.pars.at[par, "timed"] == "y":')
 mutant("C07-M31", "C07", "R07i", "flattened member list cached at wiring time", M, "Characteristic.get_included_comps", "        includes = []\n        for inc in self.includes:", "        if getattr(self, \"_flat\", None) is not None:\n            return list(self._flat)\n        includes = []\n        for inc in self.includes:")
 mutant("C02-M23", "C02", "R04c", "residual outflow takes the remainder whatever the proportions sum to", M, "ResidualJunctionCompartment.balance", "if link.parameter is None and total_outflow < 1:", "if link.parameter is None:")
+mutant("C06-M39", "C06", "R06c", "transfer scale factor divides by the all-population factor", M, "Model.build", "par.scale_factor = transfer_parameter.y_factor[pop_target] * transfer_parameter.meta_y_factor", "par.scale_factor = transfer_parameter.y_factor[pop_target] / transfer_parameter.meta_y_factor")
+mutant("C01-M28", "C01", "R01n", "junction class chosen for non-junctions", M, "Population.build", 'elif comps.at[comp_name, "is junction"] == "y":', 'elif comps.at[comp_name, "is junction"] != "y":')
+mutant("C04-M31", "C04", "R04g", "residual junctions built as plain junctions", M, "Population.build", "                if comp_name in residual_junctions:", "                if comp_name in residual_junctions and False:")
+mutant("C05-M31", "C05", "R05l", "sources take precedence over duration groups", M, "Population.build", '                elif comps.at[comp_name, "duration group"]:\n                    self.comps.append(TimedCompartment(pop=self, name=comp_name, parameter=self.par_lookup[comps.at[comp_name, "duration group"]]))\n                elif comps.at[comp_name, "is source"] == "y":\n                    self.comps.append(SourceCompartment(pop=self, name=comp_name))', '                elif comps.at[comp_name, "is source"] == "y":\n                    self.comps.append(SourceCompartment(pop=self, name=comp_name))\n                elif comps.at[comp_name, "duration group"]:\n                    self.comps.append(TimedCompartment(pop=self, name=comp_name, parameter=self.par_lookup[comps.at[comp_name, "duration group"]]))')
